@@ -9,7 +9,9 @@ CONSTANTS
   MaxCrashes = 1000
   Order <- OrderCode
   SimLen = 8
-  CrashOdds = 3
+  CrashAny = FALSE
+  MaxK = 10
+  RestartOdds = 3
   MaxPend = 3
 INIT GInit
 NEXT GNext
